@@ -2,10 +2,12 @@ module verif/harness
 
 go 1.19
 
-require github.com/kelindar/column v0.0.0
+require (
+	github.com/kelindar/bitmap v1.4.1
+	github.com/kelindar/column v0.0.0
+)
 
 require (
-	github.com/kelindar/bitmap v1.4.1 // indirect
 	github.com/kelindar/intmap v1.1.0 // indirect
 	github.com/kelindar/iostream v1.3.0 // indirect
 	github.com/kelindar/simd v1.1.2 // indirect
